@@ -317,13 +317,14 @@ def evalProgram (tbl : RuleTable) (src : Bytes) (sels : List Bytes) (files : Lis
   | .oof => ⟨.oof, [], none⟩
   | .ok prog => runProgram prog src tbl sels files
 
-/-- `GetRootJson()`: `none` = error ("no value to write", circular reference, …) -/
+/-- `GetRootJson()`: `none` = error ("no value to write", circular reference, nested deeper than
+    `json.MarshalIndent` accepts, …) -/
 def getRootJson (s : St) : Option Bytes :=
   match s.root with
   | none => none
   | some c =>
     match toJValTop s.heap (s.heap.get c) with
-    | .ok j => some (Json.marshalIndent j)
+    | .ok j => if Json.tooDeep j then none else some (Json.marshalIndent j)   -- evaluator.go:1172-1175
     | _ => none
 
 end Jqawk
